@@ -412,12 +412,14 @@ func valueCase(c *runner.Ctx, i int, m valMode) {
 				}
 				c.Add("roundtrips", 1)
 				bad := ""
+				var gotI *big.Int // the decoded number, if the column is an integer type and decoding worked
 				if err != nil {
 					bad = "Unmarshal error: " + err.Error()
 				} else if got, rerr := readGo(df, dst.Elem()); rerr != nil {
 					bad = "decoded Go value is not a valid representation: " + rerr.Error()
 				} else if !cqlref.EqualVal(t, canon(t, blurNil(df, t, got), proto), canon(t, blurNil(df, t, v), proto)) {
 					bad = fmt.Sprintf("decoded %s, want %s", got.String(t), v.String(t))
+					gotI = got.I
 				}
 				if bad == "" && m == modeC02 && (i+k)%3 == 0 {
 					// the same destination again, after it held another value of the type: what a loop over rows does.
@@ -466,9 +468,19 @@ func valueCase(c *runner.Ctx, i int, m valMode) {
 					class = "out-of-range-accepted"
 				}
 				if !inRange && unsignedWrapClass(bt, bsf) {
-					// one finding per (column type, unsigned Go source type), whatever the decode target
-					c.Violation(fmt.Sprintf("C02:unsigned-wrap:%s:%s", bt, bsf), "an unsigned Go value above the column type's signed maximum is accepted and wraps to a negative number: "+bad, wit(detail))
-					continue
+					// one finding per (column type, unsigned Go source type), whatever the decode target - as long as
+					// what comes back is that failure (the number wrapped into the column's signed range); anything
+					// else that comes back is a different failure and is reported under its own key
+					wrapped := true
+					if bits := map[int]uint{cqlref.TTinyint: 8, cqlref.TSmallint: 16, cqlref.TInt: 32, cqlref.TBigint: 64, cqlref.TCounter: 64}[t.ID]; bits > 0 && v.I != nil && gotI != nil {
+						w := new(big.Int).Sub(v.I, new(big.Int).Lsh(big.NewInt(1), bits))
+						wrapped = gotI.Cmp(w) == 0
+						c.Add("unsigned_wrap_results_examined", 1)
+					}
+					if wrapped {
+						c.Violation(fmt.Sprintf("C02:unsigned-wrap:%s:%s", bt, bsf), "an unsigned Go value above the column type's signed maximum is accepted and wraps to a negative number: "+bad, wit(detail))
+						continue
+					}
 				}
 				c.Violation(fmt.Sprintf("C02:%s:%s:%s->%s:%s", class, bt, bsf, bdf, bc), "Marshal succeeded but Unmarshal into a documented target that can represent the value does not give it back: "+bad, wit(detail))
 			}
